@@ -2234,6 +2234,25 @@ def leaf_text_verbatim(check: Check, repo: Repo, rule: str = "LEAF-VERBATIM") ->
                      "the token text itself" if ok else f"the text is rewritten (`{unparse(v)[:50] if v is not None else None}`): the printed numeral / name is not the one that was parsed")
 
 
+def enclosing_conditions(node: ast.AST) -> set[tuple[str, bool]]:
+    """The tests of the `if` statements that enclose `node` inside its loop / function, split into atoms where they are
+    conjunctions (disjunctions under negation) and kept whole otherwise - conditions that leave no must-fact behind."""
+    from sa.guards import split_cond
+
+    out: set[tuple[str, bool]] = set()
+    child: ast.AST = node
+    for a in ancestors(node):
+        if isinstance(a, (ast.While, ast.For, ast.AsyncFor, *FuncDef)):
+            break
+        if isinstance(a, ast.If):
+            in_body = any(child is s_ or any(child is y for y in ast.walk(s_)) for s_ in a.body)
+            for f_ in split_cond(a.test, in_body):
+                nf = _norm_fact(f_)
+                out.add(nf if nf else (unparse(f_.expr), f_.pol))
+        child = a
+    return out
+
+
 APPEND_ALLOWED = {
     # edit value -> the only conditions (normal form) the recording of that edit may depend on
     "result": {("result is None", False), ("result is SKIP", False), ("result is False", False), ("result is BREAK", False),
